@@ -26,9 +26,9 @@ theorem mask_of_done (i : Inst) (s : State) (hd : env.done i s = true) (a : Nat)
     env.mask i s a = decide (a = 0) := by
   have hall := all_visited_of_done i s hd
   by_cases h0 : a = 0
-  · subst h0; simp [env, mask, anyLoc_false_of_done i s hd]
+  · subst h0; simp [env, mask_eq, maskRef, anyLoc_false_of_done i s hd]
   · simp only [env] at ha
-    simp [env, mask, h0, locOk, hall a ha]
+    simp [env, mask_eq, maskRef, h0, locOk, hall a ha]
 
 theorem routes_append_zero (as : List Nat) : routes (as ++ [0]) = routes as ++ [[]] := by
   induction as with
